@@ -532,8 +532,8 @@ fn garbage_body(g: &Garbage, rec: &mut Rec) -> CaseResult {
 }
 
 pub fn check() -> Option<Check> {
-    let exact_core = prop("exact_load", 60_000, 2_000_000, |t: Tier| exact_case(t, false), exact_body);
-    let exact_ext = prop("exact_load_extended_types", 30_000, 1_000_000, |t: Tier| exact_case(t, true), exact_body);
+    let exact_core = prop("exact_load", 120_000, 2_000_000, |t: Tier| exact_case(t, false), exact_body);
+    let exact_ext = prop("exact_load_extended_types", 60_000, 1_000_000, |t: Tier| exact_case(t, true), exact_body);
     let escapes = prop("decimal_escapes", 2_000, 20_000, |_| esc_case(), esc_body);
     let garbage = prop_hang(
         "garbage",
